@@ -13,7 +13,7 @@ use vcore::{compile, Check, Labels, Outcome, Plan, Project, Stats, Step, Tape, T
 pub struct C11;
 pub const CHECK: C11 = C11;
 pub fn plan(t: Tier) -> Plan {
-    Plan::new(t.pick(5_000, 60_000), t.pick(3400, 4600))
+    Plan::new(t.pick(10_000, 100_000), t.pick(3400, 4600))
 }
 
 #[derive(Clone, Serialize, Deserialize)]
